@@ -478,9 +478,49 @@ func (b *Batch) bisectPanic(msg string) *gen.Func {
 }
 
 // Run executes the batch binary with a spec and decodes its result.
-func (b *Batch) Run(sp driver.Spec) *driver.Result { return b.runWith(sp, 20*time.Minute, true) }
+// Run plays the batch. A function whose generated code brings the run binary down (an
+// advance that never returns: liveness watchdog of the driver; a fatal runtime error such as
+// a stack overflow or "all goroutines are asleep") is reported as a mismatch of that
+// function without a scenario, and the binary is run again without it.
+func (b *Batch) Run(sp driver.Spec) *driver.Result {
+	var dead []driver.Mismatch
+	for round := 0; ; round++ {
+		res, d := b.runWith(sp, 20*time.Minute, true)
+		if d == nil {
+			res.Mismatches = append(res.Mismatches, dead...)
+			return res
+		}
+		dead = append(dead, *d)
+		if round == 3 || sp.Only != "" || sp.Replay != nil {
+			return &driver.Result{Mismatches: dead, Counters: map[string]int{"batches_abandoned_after_repeated_process_death": 1}}
+		}
+		sp.Skip = append(sp.Skip, d.Func)
+	}
+}
 
-func (b *Batch) runWith(sp driver.Spec, timeout time.Duration, strict bool) *driver.Result {
+var funcLine = regexp.MustCompile(`(?m)^VSIM-FUNC (\S+)$`)
+var hangLine = regexp.MustCompile(`(?m)^VSIM-HANG func=(\S*) impl=(\S*) limit=(\S+)$`)
+
+// deathOf classifies the stderr of a run binary that did not finish: the function under
+// play, what happened, and whether the code under test (generated packages, seq runtime)
+// is what was running. Anything else is the harness's own trouble.
+func deathOf(stderr string) (fn, class string, sut bool) {
+	if m := hangLine.FindStringSubmatch(stderr); m != nil {
+		return m[1], "liveness: a play of the generated code does not come back (no effect point, no return; the reference completes)", m[2] == "opt" || m[2] == "unopt"
+	}
+	at := strings.Index(stderr, "fatal error: ")
+	if at < 0 {
+		return "", "", false
+	}
+	if ms := funcLine.FindAllStringSubmatch(stderr[:at], -1); len(ms) > 0 {
+		fn = ms[len(ms)-1][1]
+	}
+	tail := stderr[at:]
+	sut = strings.Contains(tail, "go-co/seq.") || strings.Contains(tail, "scratch/opt/") || strings.Contains(tail, "scratch/unopt/")
+	return fn, "the generated code brought the process down: " + firstLines(tail, 1), sut
+}
+
+func (b *Batch) runWith(sp driver.Spec, timeout time.Duration, strict bool) (*driver.Result, *driver.Mismatch) {
 	sp.Digest = map[string]uint64{}
 	for _, f := range b.Prog.AllFuncs() {
 		sp.Digest[f.Name] = gen.Digest(b.Prog.RenderFunc(f, gen.Mode{}))
@@ -496,18 +536,31 @@ func (b *Batch) runWith(sp driver.Spec, timeout time.Duration, strict bool) *dri
 	out, err := cmd.Output()
 	if err != nil {
 		if !strict {
-			return nil
+			return nil, nil
 		}
-		ev.Infra("batch run binary failed: %v\n%s", err, firstLines(stderr.String(), 40))
+		if fn, class, sut := deathOf(stderr.String()); sut && fn != "" {
+			return nil, &driver.Mismatch{Func: fn, Oracle: sp.Oracle, Class: class, DiffAt: -1, Observed: strings.Split(firstLines(lastPart(stderr.String()), 60), "\n")}
+		}
+		ev.Infra("batch run binary failed: %v\n%s", err, firstLines(lastPart(stderr.String()), 40))
 	}
 	var res driver.Result
 	if err := json.Unmarshal(out, &res); err != nil {
 		if !strict {
-			return nil
+			return nil, nil
 		}
 		ev.Infra("batch run binary printed no result: %v\n%s", err, firstLines(string(out), 10))
 	}
-	return &res
+	return &res, nil
+}
+
+// lastPart drops the progress lines in front of what a dying run binary printed.
+func lastPart(stderr string) string {
+	for _, mark := range []string{"VSIM-HANG", "fatal error: ", "panic: "} {
+		if at := strings.Index(stderr, mark); at >= 0 {
+			return stderr[at:]
+		}
+	}
+	return funcLine.ReplaceAllString(stderr, "")
 }
 
 // the in-package test file that uses the API, present in batches compiled with test packages loaded
